@@ -127,7 +127,12 @@ wait:
 			// the limit is on the processor time the run has used (on a loaded
 			// machine a heavy run may take several times as long on the wall
 			// clock), with a generous wall-clock limit behind it
-			if cpuOf(cmd.Process.Pid) > runWallLimit || time.Since(t0) > 8*runWallLimit {
+			cpuLimit := runWallLimit
+			if o.procs > 1 {
+				// selftest only: with several Ps every parked task spins on its own P
+				cpuLimit *= time.Duration(o.procs)
+			}
+			if cpuOf(cmd.Process.Pid) > cpuLimit || time.Since(t0) > 8*runWallLimit {
 				syscall.Kill(-cmd.Process.Pid, syscall.SIGKILL)
 				<-done
 				out.infra = fmt.Sprintf("infra_timeout: run exceeded %s of processor time (or %s on the wall clock)", runWallLimit, 8*runWallLimit)
